@@ -20,6 +20,11 @@ CLAIMS = {
          "data/old values, terms never enter boundary rows (Props/C04.v); the solve suite evaluates the residual of the MODEL system inside Coq at "
          "the real solver's answer for random term lists; probes: identity of the returned object, external solver receives the identical system, "
          "solveMatrixPDE agreement", "DESIGN.md 4 (C04)"),
+ "C09": ("Heap machine Model/State.v (dirty flags of TrackedArrays, ghost cells, cached boundary term, shared BoundaryConditions objects, copy / arithmetic / "
+         "explicit-solver results), validated by operation-history correspondence (bounded-exhaustive + random, 5 grid classes). Theorems: in every heap a solve "
+         "assembles its boundary equations from the current content (= fresh start), shared objects included; for histories without sharing, clean flags imply "
+         "fresh ghosts and cache (invariant by induction over histories); the pre-repair code is refuted by two concrete histories (Props/C09.v); probe: next "
+         "solve vs fresh start on real objects", "DESIGN.md 4 (C09)"),
  "C10": ("Theorems: sizes = face differences, ghost sizes repeat, centres = midpoints, (N,L) form, coded volumes in geometric form per class, radial/"
          "Cartesian sums telescope to the domain size (generic field); over R: positivity, SphericalGrid1D volume = full shell, SphericalGrid3D volume "
          "REFUTED (known finding, pinned by a test); labels by finite enumeration over tables regenerated from face.py/mesh.py (Props/C10.v); mesh suite; "
@@ -27,6 +32,14 @@ CLAIMS = {
  "C11": ("Theorems: constants, linear exactness on any spacing, donor-cell rule (generic field); over R: every mean lies between its two neighbours and "
          "harmonic <= geometric <= arithmetic with the same width weights (weighted AM-GM from 1+x<=exp x) (Props/C11.v); means suite on all classes incl. "
          "zeros; probes incl. geometricMean closed form", "DESIGN.md 4 (C11)"),
+ "C14": ("Storage-level model Model/Algebra.v; theorems by induction over expression trees of any depth: no operator writes a pre-existing array, results "
+         "of operator applications are fresh arrays (value, ghosts, every BC array), results carry the boundary conditions of the left-most variable leaf, "
+         "copy() is equal and fresh; operator table regenerated from cell.py/face.py has every reflected form (Props/C14.v). Elementwise numerics are numpy's: "
+         "the algebra suite checks values, snapshots, np.shares_memory alias graph and later cross-modification on the implementation (assurance mainly from it)", "DESIGN.md 4 (C14)"),
+ "C15": ("Write effects of all 26 public builders/solvers are extracted statically from the source on every run (view/alias analysis, call-graph fixpoint) and "
+         "proved equal to the documented ones by finite enumeration (only solvePDE writes, only its solution variable; solveExplicitPDE may refresh boundary values "
+         "of its input) (Props/C15.v); purity in the functional model is by construction; the purity suite measures snapshots, bit-identical repeats and aliasing "
+         "on the implementation (assurance mainly from it)", "DESIGN.md 4 (C15)"),
  "C16": ("Finite enumerations (proofs by computation over finite domains, lifted with forallb_forall / case analysis) over tables REGENERATED from the source: "
          "6 labels x 9 classes x get/set (+CellProp), periodic flags on radial boundaries raise ValueError and no other flag does, the term-kind chain of "
          "solvePDE yields TypeError exactly for non-conforming terms (Props/C16.v); every table row plus shapes, arities 0..7 and BoundaryFace types is executed on the implementation", "DESIGN.md 4 (C16)"),
